@@ -12,8 +12,12 @@ SPEC = dict(
                 "proof is the node's own; (2) an accepted GetRangeResult hands out exactly the proven shares, never panics; (3) "
                 "CommitmentProof.Verify, for every instantiation of the primitives it calls: accepted => the subtree roots hash to the "
                 "commitment, the subtree-root proofs consume all subtree roots front to back exactly once, each verified against its row root, "
-                "every row root is proven to the data root, counts consistent, nothing missing; with the symbolic hash a commitment names one "
-                "list of subtree roots; (4) RFC-6962 Merkle proofs over symbolic hashes: a produced proof verifies, a verifying proof pins the "
+                "every row root is proven to the data root, counts consistent, nothing missing, the row range ordered and at least one row; "
+                "the node's own Validate counts rows in uint32 (mod 2^32, so an inverted range [e+1,e] and [0,2^32-1] count zero rows and an "
+                "inverted range can count any number): the ordered-range / at-least-one-row conclusions rest on celestia-app's RowProof.Validate "
+                "called inside Verify, and the variant without that call is refuted in Coq (the proof without any component verifies for the "
+                "commitment of the empty list against every data root, for every instantiation of the primitives; concrete witness by "
+                "vm_compute); with the symbolic hash a commitment names one list of subtree roots; (4) RFC-6962 Merkle proofs over symbolic hashes: a produced proof verifies, a verifying proof pins the "
                 "item at its index; data-root tuples: encoding = 32-byte big-endian height ++ root and injective, range/request validation "
                 "characterised, a produced proof verifies against the range's root for exactly the tuple of that height (one-block ranges "
                 "included) and for nothing else. The models follow the repaired code (fix-c12-1..4) and are re-validated on every run "
@@ -23,14 +27,18 @@ SPEC = dict(
     rule=("blob: blocks from the real square builder (threshold 64, squares 4..32, blobs up to >64 shares / several rows); per blob: "
           "GetCommitmentProof+Verify honest, after JSON round trip, and under 36 tamper families (append/drop/reorder/substitute/widen/shift "
           "subtree roots, subtree proofs, nodes, row roots, row proofs, indexes, totals, aunts, leaf hashes, nil components, other commitment, "
-          "other root, parts of another blob's proof, metadata, JSON byte mutations); GetProof+Included honest / nil / absent commitment / 16 "
+          "other root, parts of another blob's proof, metadata, JSON byte mutations) plus 11 row-range families at the uint32 boundaries, "
+          "each as a struct and through the JSON form (every component trimmed with the range inverted [1,0] / [max,max-1] / [e+1,e] / random, "
+          "wrapped [0,max], zero value, honest rows; honest components under an inverted range that wraps to the right count, inverted to "
+          "zero, swapped, EndRow or StartRow = MaxUint32, full range; zero rows with the subtree roots kept); GetProof+Included honest / nil / absent commitment / 16 "
           "tamper families, and Proof.equal directly. nodebuilder/share: deterministic squares of namespace runs, ranges inside one namespace "
           "(whole namespace, single share, random), newGetRangeResult+Verify honest and under 25 tamper families. nodebuilder/blobstream: "
           "header chains of 1..21 (thorough: ..257) heights behind a getter with the go-header store's range semantics, plus the real go-header "
           "store once; encoding at boundary heights, range/request validation at boundaries incl. the 10000-block limit, every produced proof "
           "named aunt by aunt, 9 structural tamper families mirrored in the model. One case = one call with its observed verdict class "
           "(accept / reject / panic, or the produced proof's shape); non-trivial = every case except constants; distinct = distinct Coq term. "
-          "L3: honest rejected, tampered accepted (authenticated content differs), panic, proof not produced."),
+          "L3: honest rejected, tampered accepted (authenticated content differs), an accepted proof without subtree roots or without row "
+          "roots (it proves nothing: same verdict against every root), an accepted proof whose row range is inverted, panic, proof not produced."),
     trusted_base=[
         "models Blob/ProofEq.v, Blob/Commitment.v, Blob/Tuple.v, Blob/TupleMerkle.v hand-written after blob/blob.go (Proof.equal), blob/service.go (Included), "
         "nodebuilder/share/get_range_result.go (Verify), blob/commitment_proof.go (Validate, Verify), nodebuilder/blobstream/{data_root_tuple_root,service}.go "
@@ -46,6 +54,8 @@ SPEC = dict(
         "mirrors the go-header store (empty range refused), the real store is exercised once per run",
         "unauthenticated metadata of a CommitmentProof (NamespaceID/Version, StartRow/EndRow shifted together, nmt leaf hash / flag inside it) and a Merkle proof's "
         "Total widened without changing the path are not bound by verification; the oracle does not count their acceptance as a forgery",
-        "Go int / uint32 / uint64 are modelled as Z (uint32 subtraction in Validate modelled mod 2^32)",
+        "Go int / uint32 / uint64 are modelled as Z; the uint32 row count of CommitmentProof.Validate is modelled mod 2^32 (row_count_u32), the int64 row "
+        "count and the EndRow >= StartRow / len(RowRoots) != 0 checks of celestia-app's RowProof.Validate are modelled as read in the vendored "
+        "v9.0.4 source (row_validate / grow_validate) and tied by the row-range tamper families",
     ],
 )
